@@ -36,8 +36,32 @@ def run(ctx):
         ctx.pipe([ho, "exsmooth", "20", "13", "16"], "smooth", env=env, label="exsmoothers-asan-ubsan")
         ctx.pipe([ho, "direct", "10", "9", "16"], "direct", env=env, label="direct-asan-ubsan")
         ctx.pipe([ho, "transfer", "20", "17", "32"], "transfer", env=env, label="transfer-asan-ubsan")
+    # the vector kernels and the copy operations of Vector<T> under AddressSanitizer + UBSan (header-only harness, both tiers): sizes on
+    # both sides of the 10'000-entry parallel switch and thread counts that do not divide them — the option tuples above never reach
+    # such sizes, the solver does (levels with more than 10'000 nodes)
+    vec_asan(ctx)
     ctx.assumptions += ["PARTIAL: absence of undefined behaviour is PROVED for the modelled index arithmetic, grid generation and level "
                         "selection (C17, C18, C20.never_undefined, C20.accepted_safe) and for the control variables of the solve loop "
                         "(total functional model, C01 / C13); for the C++ that is only spec-modelled (smoother internals, assembly loops) it "
                         "rests on the sanitizer runs of the thorough tier, which are evidence for the correspondence, not a theorem",
                         "defects F3 (uninitialised statistics) and F6 / F12 (grid generation) were repaired by fix: commits"]
+
+
+def vec_asan(ctx):
+    import subprocess, os
+    from verif import ROOT, REPO, BUILD, GUARD
+    out = os.path.join(BUILD, "harness-asan-vec")
+    os.makedirs(out, exist_ok=True)
+    exe = os.path.join(out, "h_vec")
+    r = subprocess.run(["g++", "-std=c++20", "-fopenmp", f"-D{GUARD}", "-O1", "-g", "-DNDEBUG", "-fsanitize=address,undefined", "-fno-sanitize-recover=all",
+                        f"-I{REPO}/include", f"-I{REPO}/src", f"-I{ROOT}/harness", os.path.join(ROOT, "harness", "h_vec.cpp"), "-o", exe + ".tmp%d" % os.getpid()],
+                       capture_output=True, text=True)
+    if r.returncode != 0:
+        ctx.broken.append(("harness-build:h_vec (asan)", r.stderr[-3000:]))
+        return
+    os.replace(exe + ".tmp%d" % os.getpid(), exe)
+    env = {"ASAN_OPTIONS": "detect_leaks=0"}
+    before = len(ctx.broken)
+    ctx.pipe([exe], "par", env=env, label="vector-kernels-asan-ubsan")
+    if len(ctx.broken) > before and any(b[0].startswith("harness vector-kernels-asan-ubsan") for b in ctx.broken[before:]):
+        ctx.crash_probe([exe], "vector-kernels-crash-probe", start_re=r"^VECBEGIN\b", env=env)
